@@ -94,6 +94,42 @@ def case(args):
     return r
 
 
+def repeated_input_case(args):
+    """the same input set reaches a process twice: its first task has finished (its output exists) but still waits in the
+    queue behind an older, slow task when the repeat arrives, followed by a different input.  The out-port emits in arrival
+    order: slow', a', a', c' (the repeat is skipped and keeps its place)"""
+    seed, i = args
+    rng = random.Random(seed * 104743 + i)
+    sp = t3.Spec(maxtasks=rng.choice([3, 4, 8]), bufsize=rng.choice([1, 2, 128]))
+    names = ["slow.txt", "a.txt", "a.txt", "c.txt"] + (["a.txt", "d.txt"] if rng.random() < 0.5 else [])
+    for p in set(names):
+        sp.files[p] = p + "\n"
+    s = sp.src("src", names)
+    pause = rng.choice([400, 600])
+    delays = [0, 0, pause, 0] + ([pause, 0] if len(names) > 4 else [])
+    pc = sp.raw("COMP pace %s %d %s %s" % (vlib.hx("pace"), s, vlib.hx("out"), " ".join(str(d) for d in delays)))
+    # the task of slow.txt takes longer than all pauses together; the others are quick
+    sleep = 'sleep $(( $(echo {i:a|basename} | grep -c slow) * 2 )).1'
+    a = sp.proc(t3.Proc("p1", kind="cattok", ins=[("a", [(pc, "out")])], outs=[("o", "{i:a}.p1")], sleep=sleep))
+    sp.raw("REC %s %d %s" % (vlib.hx("rec_p1_o"), a, vlib.hx("o")))
+    sc = t3.Scratch()
+    try:
+        sc.plant(sp.files)
+        impl = t3.run_impl(sc, sp, timeout=60)
+        problems = []
+        if impl["rc"] != 0 or not impl["returned"]:
+            problems.append(("unexpected-failure", "exit %s: %s" % (impl["rc"], impl["stderr"][-200:])))
+        else:
+            p = os.path.join(sc.work, "REC.rec_p1_o")
+            got = [unhx(l.split()[1]) for l in open(p).read().splitlines() if l.startswith("IP ")] if os.path.exists(p) else None
+            want = [n + ".p1" for n in names]
+            if got != want:
+                problems.append(("order", "inputs arrived as %s (a repeated input set among them); out-port p1.o emitted %s, arrival order demands %s" % (names, got, want)))
+        return {"spec": sp.text(), "bufsize": sp.bufsize, "problems": problems, "ntasks": len(names), "rc": impl["rc"], "stderr": impl["stderr"][-200:], "yield": None, "wall": impl["wall"]}
+    finally:
+        sc.close()
+
+
 def run(rep, tier, seed):
     proved = vlib.prove(rep, MODULE, THEOREMS)
     ok, msg = vlib.build_ocaml()
@@ -101,10 +137,11 @@ def run(rep, tier, seed):
         raise RuntimeError("extraction/driver build failed: " + msg[-1500:])
     n = 48 if tier == "quick" else 800
     results = t3.run_many(case, [(seed, i) for i in range(n)])
+    results += t3.run_many(repeated_input_case, [(seed, i) for i in range(n // 8)])
     t3.report_t3(rep, MODULE, proved, results, "T3 recorder order")
     rep.cov["evaluations"] = len(results)
     rep.cov["distinct_nontrivial"] = len({r["spec"] for r in results if r["ntasks"] >= 3})
-    rep.cov["rule"] = "a source of 2-7 files feeds a two-output process whose task durations are a pseudo-random function of the input or strictly decreasing (later tasks finish first), optionally followed by a second process; recorder components on every out-port log the received paths; the logged sequence must equal the outputs of the tasks in arrival order; maxConcurrentTasks in {2,4,8}, SCIPIPE_BUFSIZE in {1,2,3,128}; in one run of eight, 1-5 inputs pass and then 17-37 more arrive in a burst, so that many started tasks wait at once after some were already forwarded; non-trivial = at least three tasks"
+    rep.cov["rule"] = "a source of 2-7 files feeds a two-output process whose task durations are a pseudo-random function of the input or strictly decreasing (later tasks finish first), optionally followed by a second process; recorder components on every out-port log the received paths; the logged sequence must equal the outputs of the tasks in arrival order; a paced stream in which one input set arrives twice (its first task finished but still queued behind a slow older one) followed by a different one; maxConcurrentTasks in {2,4,8}, SCIPIPE_BUFSIZE in {1,2,3,128}; in one run of eight, 1-5 inputs pass and then 17-37 more arrive in a burst, so that many started tasks wait at once after some were already forwarded; non-trivial = at least three tasks"
     rep.cov["samples"] = [results[0]["spec"]]
     rep.notes["input_distribution"] = {"runs": len(results), "tasks_executed_total": sum(r["ntasks"] for r in results)}
     rep.assump += ["H-chan: Go channels are FIFO"]
